@@ -546,6 +546,82 @@ def rule_alpha_region(ctx):
     ctx.floor(rid + ".region-list-indexings", 6)
 
 
+FRAME_SPACE_ROOTS = ["jxl_render::image::composite", "jxl_render::image::composite_preprocess", "jxl_render::blend::blend",
+                     "jxl_render::blend::patch", "jxl_render::render::render_frame",
+                     "jxl_render::util::pad_upsampling", "jxl_render::util::pad_color_region", "jxl_render::util::pad_lf_region"]
+ORIENTED = ("ImageHeader::width_with_orientation", "ImageHeader::height_with_orientation", "ImageMetadata::apply_orientation")
+# the converters: they take a region in oriented image coordinates and hand back codestream coordinates
+ORIENT_BOUNDARY = ("jxl_render::region::Region::apply_orientation", "jxl_render::util::apply_orientation_to_image_region",
+                   "jxl_render::util::image_region_to_frame")
+
+
+def rule_orient_scope(ctx):
+    """code that works in codestream (frame / canvas) coordinates never asks for oriented dimensions"""
+    rid = "R-ORIENT-SCOPE"
+    ctx.rule(rid, "frames are decoded, padded, composited and patched in codestream coordinates; the orientation is applied once, at the "
+                  "API boundary (Region::apply_orientation on the requested region, the frame-buffer writers of jxl-oxide).  Layering: "
+                  "from the functions that compute in frame / canvas coordinates (composite, blend, patch, render_frame, "
+                  "the pad_* functions) no chain of resolved calls inside jxl_render reaches ImageHeader::width_with_orientation / "
+                  "height_with_orientation / ImageMetadata::apply_orientation, except through the three converters that take an "
+                  "oriented region and return codestream coordinates (Region::apply_orientation, apply_orientation_to_image_region, "
+                  "image_region_to_frame) - a canvas clipped to the "
+                  "oriented size composites only the top-left min(W, H) square of a transposed image")
+    cr = ctx.prog.crate("jxl_render")
+    edges = {}
+    for f in cr.fn_list:
+        if f.kind == "Promoted":
+            continue
+        outs = set()
+        for b, t in f.calls():
+            c = callee(t)
+            if c:
+                outs.add(c.get("res") or c["fn"])
+                outs.add(c["fn"])
+        # closures are part of the function that creates them
+        for blk in f.blocks:
+            for st in blk[0]:
+                if st[0] == "=" and st[2][0] == "agg" and st[2][1][0] == "closure":
+                    outs.add(st[2][1][1])
+        edges[f.path] = outs
+    n = 0
+    for root in FRAME_SPACE_ROOTS:
+        f = cr.fn(root)
+        if f is None:
+            ctx.anchor_missing(rid, root)
+            continue
+        ctx.seen(f)
+        n += 1
+        seen, todo, par = set(), [f.path], {}
+        hit = None
+        while todo and hit is None:
+            x = todo.pop()
+            if x in seen:
+                continue
+            seen.add(x)
+            for y in edges.get(x, ()):
+                if any(y.endswith(o) for o in ORIENTED):
+                    par[y] = x
+                    hit = y
+                    break
+                if y in edges and y not in seen and y not in ORIENT_BOUNDARY:
+                    par.setdefault(y, x)
+                    todo.append(y)
+        if hit is None:
+            ctx.ok(rid, "frame-space:" + root.split("::")[-1], "%d functions reachable, none asks for oriented dimensions" % len(seen), nontrivial=True, fn=f)
+        else:
+            chain = [hit]
+            while chain[-1] in par:
+                chain.append(par[chain[-1]])
+            ctx.bad(rid, "frame-space:" + root.split("::")[-1], "oriented dimensions reach code that works in codestream coordinates: %s"
+                    % " <- ".join(x.split("::")[-1] if not x.startswith("<") else x for x in chain), fn=f)
+    # the positive example: the converters do use them
+    conv = cr.fn(ORIENT_BOUNDARY[0])
+    if conv is None or not any(callee(t) and any(callee(t)["fn"].endswith(o) for o in ORIENTED) for _, t in conv.calls()):
+        ctx.anchor_missing(rid, "Region::apply_orientation calling the oriented accessors (the use that must keep matching)")
+    ctx.count(rid + ".roots", n)
+    ctx.floor(rid + ".roots", 8)
+
+
 def rule_alpha_depth(ctx):
     """the plane picked by the alpha index is converted to float with the bit depth looked up by the alpha index"""
     rid = "R-ALPHA-DEPTH"
@@ -728,6 +804,7 @@ def main(pid, tier, repo=None):
     rule_blendsrc(ctx)
     rule_alpha_region(ctx)
     rule_alpha_depth(ctx)
+    rule_orient_scope(ctx)
     from . import enummap
     enummap.run(ctx, pid)
     from . import fixguards
